@@ -246,7 +246,7 @@ func (x *exec) load(s *State, l *Loc, t types.Type) *Val {
 	case LElem:
 		name, sort := x.elemArr(l.T)
 		arr := Sel(x.h.get(s, name, sort), App("s-ref", l.Slice))
-		return x.loaded(s, Sel(arr, x.c.IAdd(App("s-off", l.Slice), l.Idx)), t)
+		return x.loaded(s, Sel(arr, x.c.EIdx(App("s-off", l.Slice), l.Idx)), t)
 	case LSub:
 		si := x.c.structOf(l.T)
 		pv := x.load(s, l.Parent, l.T)
@@ -300,7 +300,7 @@ func (x *exec) store(s *State, l *Loc, v *Val, t types.Type) {
 		name, sort := x.elemArr(l.T)
 		h := x.h.get(s, name, sort)
 		ref := App("s-ref", l.Slice)
-		x.h.set(s, name, sort, Sto(h, ref, Sto(Sel(h, ref), x.c.IAdd(App("s-off", l.Slice), l.Idx), x.term(v))))
+		x.h.set(s, name, sort, Sto(h, ref, Sto(Sel(h, ref), x.c.EIdx(App("s-off", l.Slice), l.Idx), x.term(v))))
 		x.clearCsprng(s, ref)
 	case LSub:
 		si := x.c.structOf(l.T)
